@@ -305,6 +305,15 @@ Theorem C10_rgb565_dither_one_aligned_row : forall src base scan row buf op,
 Proof. exact dither565_one_aligned_row. Qed.
 Print Assumptions C10_rgb565_dither_one_aligned_row.
 
+(* generated from simd/x86_64/{jccolext,jcgryext,jdcolext,jdmrgext}-{avx2,sse2}.asm: every per-iteration advance of a plane
+   pointer (inptr0/1/2 of the decompression kernels, outptr0/1/2 of the compression kernels), in both RGB_PIXELSIZE branches,
+   is exactly one vector of the file's ISA *)
+Theorem C10_simd_plane_pointer_advances :
+  forallb (fun e => fst e =? snd e) simd_plane_ptr_advances = true /\
+  (simd_present = true -> (32 <=? Z.of_nat (length simd_plane_ptr_advances)) = true).
+Proof. exact simd_plane_pointer_advances. Qed.
+Print Assumptions C10_simd_plane_pointer_advances.
+
 (* non-vacuity: the hypotheses of (2) and (3) hold for concrete non-trivial values *)
 Example C10_compress_example :
   let L1 := cs_layout JCS_EXT_RGB in let L2 := cs_layout JCS_EXT_XBGR in
